@@ -18,6 +18,7 @@ import (
 	"fmt"
 	"runtime"
 	"sort"
+	"strconv"
 	"strings"
 	"sync/atomic"
 	"syscall"
@@ -51,9 +52,14 @@ type Thread struct {
 	chain   string // peerswap call chain at the last lock request
 }
 
+// lockSt: scheduler-side state of one lock.  No Go maps anywhere in the
+// scheduler: map operations are instrumented inside the runtime even when the
+// caller is //go:norace, and would show up as (false) race reports.
 type lockSt struct {
+	obj     any
+	name    string
 	writer  *Thread
-	readers map[*Thread]int
+	readers []*Thread
 }
 
 // Point is one scheduling decision.
@@ -72,7 +78,7 @@ type Deadlock struct {
 type Exec struct {
 	threads  []*Thread
 	cur      *Thread
-	locks    map[any]*lockSt
+	locks    []*lockSt
 	prefix   []int
 	Points   []Point
 	Choices  []int
@@ -84,7 +90,6 @@ type Exec struct {
 	mainR    int
 	mainW    int
 	Internal string
-	lockName map[any]string
 }
 
 var cur *Exec
@@ -152,13 +157,29 @@ func (e *Exec) newThread(name string) *Thread {
 
 //go:norace
 func (e *Exec) lock(obj any) *lockSt {
-	l := e.locks[obj]
-	if l == nil {
-		l = &lockSt{readers: map[*Thread]int{}}
-		e.locks[obj] = l
-		e.lockName[obj] = fmt.Sprintf("%T#%d", obj, len(e.locks))
+	for _, l := range e.locks {
+		if l.obj == obj {
+			return l
+		}
 	}
+	name := "*vsync.Mutex"
+	if _, ok := obj.(*vsync.RWMutex); ok {
+		name = "*vsync.RWMutex"
+	}
+	l := &lockSt{obj: obj, name: name + "#" + strconv.Itoa(len(e.locks)+1)}
+	e.locks = append(e.locks, l)
 	return l
+}
+
+//go:norace
+func (l *lockSt) removeReader(t *Thread) bool {
+	for i, r := range l.readers {
+		if r == t {
+			l.readers = append(l.readers[:i], l.readers[i+1:]...)
+			return true
+		}
+	}
+	return false
 }
 
 //go:norace
@@ -228,7 +249,8 @@ func (e *Exec) grant(t *Thread) {
 	case wantLock:
 		e.lock(t.obj).writer = t
 	case wantRLock:
-		e.lock(t.obj).readers[t]++
+		l := e.lock(t.obj)
+		l.readers = append(l.readers, t)
 	}
 	t.want = wantRun
 	t.obj = nil
@@ -326,7 +348,7 @@ func (e *Exec) reportDeadlock() {
 					holder += " [itself]"
 				}
 			}
-			desc += fmt.Sprintf(" waits for %s held by %s", e.lockName[u.obj], holder)
+			desc += fmt.Sprintf(" waits for %s held by %s", e.lock(u.obj).name, holder)
 		case wantCond:
 			desc += " waits for a condition signal"
 		case wantWg:
@@ -342,21 +364,18 @@ func (e *Exec) reportDeadlock() {
 		}
 		return nil
 	}
-	onCycle := map[*Thread]bool{}
 	for _, u := range e.threads {
 		if u.done {
 			continue
 		}
-		seen := map[*Thread]bool{}
-		for v := u; v != nil && !seen[v]; v = next(v) {
-			seen[v] = true
+		steps := 0
+		for v := u; v != nil && steps <= len(e.threads); v = next(v) {
+			steps++
 			if next(v) == u {
-				onCycle[u] = true
+				d.Cycle = append(d.Cycle, u.chain)
+				break
 			}
 		}
-	}
-	for u := range onCycle {
-		d.Cycle = append(d.Cycle, u.chain)
 	}
 	sort.Strings(d.Cycle)
 	e.Deadlock = d
@@ -408,7 +427,7 @@ func hookLock(m any, try func() bool) {
 	}
 	e.yield(t, "lock:"+site(3))
 	if !try() {
-		e.Internal = "scheduler granted a lock that is not free: " + e.lockName[m]
+		e.Internal = "scheduler granted a lock that is not free: " + e.lock(m).name
 	}
 }
 
@@ -447,9 +466,7 @@ func hookUnlock(m any) bool {
 			return false
 		}
 		l.writer = nil
-		for k := range l.readers {
-			delete(l.readers, k)
-		}
+		l.readers = nil
 		return true
 	}
 	if e.cur == nil {
@@ -459,17 +476,9 @@ func hookUnlock(m any) bool {
 	l := e.lock(m)
 	if l.writer != nil {
 		l.writer = nil
-	} else if l.readers[t] > 0 {
-		l.readers[t]--
-		if l.readers[t] == 0 {
-			delete(l.readers, t)
-		}
-	} else {
+	} else if !l.removeReader(t) && len(l.readers) > 0 {
 		// unlock by another thread than the locker (legal in Go)
-		for k := range l.readers {
-			delete(l.readers, k)
-			break
-		}
+		l.readers = l.readers[1:]
 	}
 	return true
 }
@@ -606,7 +615,7 @@ type NamedFunc struct {
 //
 //go:norace
 func Run(h Harness, prefix []int, maxSteps int) (*Exec, []string) {
-	e := &Exec{locks: map[any]*lockSt{}, lockName: map[any]string{}, prefix: prefix, MaxSteps: maxSteps}
+	e := &Exec{prefix: prefix, MaxSteps: maxSteps}
 	e.mainR, e.mainW = mkPipe()
 	cur = nil
 	threads, check, cleanup := h.Setup()
